@@ -26,13 +26,17 @@ RULE = (
     "labels in otherInteractions. (3) DSSR JSON documents over a corpus structure's residue names: pairs with nt1/nt2 "
     "resolvable / model-prefixed / unresolvable / missing and LW valid / 'cW.' / '--' / '' / null / missing / "
     "attribute-like names; stacks with mixed members; single- and multi-model documents: result == exactly the "
-    "resolvable valid pairs in order and the consecutive resolvable stack members. Non-trivial: label with at least one "
+    "resolvable valid pairs in order and the consecutive resolvable stack members. (4) Coverage-guided fuzzing (atheris / "
+    "libFuzzer, instrumenting rnapolis.adapter) of the listing import with the same oracle inside the target, from an "
+    "empty corpus and from a corpus of small valid listings (the units libFuzzer keeps count as distinct non-trivial "
+    "cases). Non-trivial: label with at least one "
     "reading (by the reference or by the tool); listing with >=1 valid, >=1 near-miss and >=1 other line; distinct = distinct string / document."
 )
 ASSUMPTIONS = [
     "number fields of generated unit ids are restricted to -?[0-9]+ or clearly non-numeric text, so Python-int leniency ('1_0', '+1', ' 1') is not part of the oracle",
     "labels the statement leaves open (affixes on stacking/BPh/BR labels, upper-case N prefix, upper-case S stacking) accept either reading",
     "DSSR documents are JSON objects whose nts_long values are strings",
+    "fuzz tier: inputs whose number fields are neither plain ASCII integers nor free of digit-like characters are checked for 'never raises' only (Python-int leniency); libFuzzer campaigns are pinned by -seed/-runs only approximately - a saved crashing input is the reproducible unit",
     "trusted: the reference classifier in this module",
 ]
 
@@ -177,22 +181,28 @@ def expected_listing(text: str):
 
 
 def oracle_listing(case):
-    from rnapolis.adapter import parse_fr3d_output
-
     text = case["text"]
     os.makedirs(WORK_DIR, exist_ok=True)
     p = os.path.join(WORK_DIR, f"c19_{os.getpid()}.txt")
     with open(p, "w", newline="") as f:
         f.write(text)
-    out = []
     try:
-        try:
-            bi = parse_fr3d_output(p)
-        except Exception as e:
-            from rnaverif.runner import sut_location
-            return [D(f"C19:listing:raises:{type(e).__name__}@{sut_location(e.__traceback__)}", f"{type(e).__name__}: {str(e)[:160]} on {text[:200]!r}")]
+        return oracle_listing_on_file(p, text.replace("\r\n", "\n"), case)
     finally:
         os.remove(p)
+
+
+def oracle_listing_on_file(p, text, case=None):
+    """`text` is the file's content with universal newlines applied (what iterating the open file yields)"""
+    from rnapolis.adapter import parse_fr3d_output
+
+    case = case if case is not None else {}
+    out = []
+    try:
+        bi = parse_fr3d_output(p)
+    except Exception as e:
+        from rnaverif.runner import sut_location
+        return [D(f"C19:listing:raises:{type(e).__name__}@{sut_location(e.__traceback__)}", f"{type(e).__name__}: {str(e)[:160]} on {text[:200]!r}")]
     exp, n, classes = expected_listing(text)
     case["_classes"] = classes
     got_lists = {"base-pair": bi.basePairs, "stacking": bi.stackings, "base-ribose": bi.baseRiboseInteractions,
@@ -490,11 +500,87 @@ def plan(tier, seed):
     specs += [{"kind": "listing", "examples": ex, "seed": seed * 1000 + k} for k in range(n)]
     n, ex = (8, 150) if tier == "quick" else (16, 1500)
     specs += [{"kind": "dssr", "examples": ex, "seed": seed * 1000 + 100 + k, "files": corpus.SMALL[:6]} for k in range(n)]
+    # coverage-guided tier: empty corpus and a corpus of small valid inputs
+    if tier == "quick":
+        specs += [{"kind": "atheris", "runs": 30000, "seed": seed * 10 + 1, "seeded_corpus": True},
+                  {"kind": "atheris", "runs": 30000, "seed": seed * 10 + 2, "seeded_corpus": False}]
+    else:
+        specs += [{"kind": "atheris", "runs": 1500000, "seed": seed * 10 + k, "seeded_corpus": k % 2 == 0} for k in range(1, 9)]
     return specs
+
+
+def fuzz_shard(spec, res: ShardResult):
+    """coverage-guided fuzzing of parse_fr3d_output (atheris/libFuzzer) with the listing oracle inside the target"""
+    import glob
+    import hashlib
+    import shutil
+    import subprocess
+    import sys
+
+    from rnaverif.runner import REPO, VERIF
+
+    work = os.path.join(WORK_DIR, f"c19fuzz_{os.getpid()}_{spec['seed']}")
+    shutil.rmtree(work, ignore_errors=True)
+    corpus_dir = os.path.join(work, "corpus")
+    os.makedirs(corpus_dir)
+    if spec.get("seeded_corpus"):
+        with open(os.path.join(REPO, "tests", "184D-fr3d.txt")) as f:
+            lines = f.read().split("\n")
+        for k in range(0, min(len(lines), 60), 6):
+            with open(os.path.join(corpus_dir, f"seed{k}"), "w") as f:
+                f.write("\n".join(lines[k:k + 6]))
+        with open(os.path.join(corpus_dir, "icode"), "w") as f:
+            f.write("1EHZ|1|A|U|17|||A\tncWWa\t1EHZ|1|A|G|-3|||B|6_555\t0\n# c\nX|1|A|G\ts35\tX|1|A|G|2\n")
+    env = dict(os.environ, PYTHONPATH=os.pathsep.join([os.path.join(REPO, "src"), VERIF]), PYTHONHASHSEED="0",
+               C19_FUZZ_TMP=work, LOGLEVEL="ERROR")
+    cmd = ["/venv/bin/python", os.path.join(VERIF, "rnaverif", "c19_fuzz.py"), f"-runs={spec['runs']}", f"-seed={spec['seed']}",
+           "-max_len=600", f"-artifact_prefix={work}/", "-print_final_stats=1", corpus_dir]
+    try:
+        p = subprocess.run(cmd, env=env, cwd=work, capture_output=True, text=True, timeout=3600)
+        outp = p.stdout + p.stderr
+        if "No module named 'atheris'" in outp or "cannot import name" in outp and "atheris" in outp:
+            res.notes.append("atheris not installed: fuzz tier skipped")
+            return
+        m = re.search(r"Done (\d+) runs", outp)
+        m2 = re.search(r"stat::number_of_executed_units:\s*(\d+)", outp)
+        runs = int(m.group(1)) if m else (int(m2.group(1)) if m2 else 0)
+        crashes = sorted(glob.glob(os.path.join(work, "crash-*")))
+        units = len(os.listdir(corpus_dir))
+        res.evaluations += runs
+        res.classes["fuzz-executions"] += runs
+        res.classes["fuzz-corpus-units"] += units
+        res.extra["fuzz_executions"] = res.extra.get("fuzz_executions", 0) + runs
+        for fn in sorted(os.listdir(corpus_dir))[:4000]:
+            with open(os.path.join(corpus_dir, fn), "rb") as f:
+                res.nontrivial.add(int.from_bytes(hashlib.sha1(f.read()).digest()[:8], "big"))
+        if len(res.samples) < 2 and units:
+            fn = sorted(os.listdir(corpus_dir))[-1]
+            with open(os.path.join(corpus_dir, fn), "rb") as f:
+                res.samples.append({"kind": "fuzz-corpus-unit", "text": f.read().decode("utf-8", "replace")[:300]})
+        for c in crashes:
+            with open(c, "rb") as f:
+                text = f.read().decode("utf-8", "replace")
+            case = {"kind": "listing", "text": text}
+            ds = oracle_listing(case)
+            if not ds:
+                ds = [D("C19:fuzz:target-failed", f"fuzz target stopped on {text[:200]!r}: {outp[-400:]}")]
+            for d in ds:
+                if not any(f_["sig"] == d.sig for f_ in res.failures):
+                    res.failures.append({"sig": d.sig, "what": d.what, "case": case})
+        if p.returncode != 0 and not crashes:
+            raise HarnessError(f"atheris run failed without a crash artifact (rc={p.returncode}): {outp[-600:]}")
+        if runs == 0 and not crashes:
+            raise HarnessError(f"atheris executed nothing: {outp[-600:]}")
+    finally:
+        shutil.rmtree(work, ignore_errors=True)
 
 
 def run_shard(spec) -> ShardResult:
     res = ShardResult()
+    if spec["kind"] == "atheris":
+        fuzz_shard(spec, res)
+        res.exhaustive = False
+        return res
     if spec["kind"] == "labels":
         label_shard(spec["prefixes"], spec["maxlen"], res)
         res.exhaustive = True
